@@ -126,7 +126,7 @@ const constructPanic = "panic:construct"
 
 func runOracle(s Script) []string {
 	out := make([]string, len(s.Ops))
-	if s.Cfg.Panics {
+	if s.Cfg.Panics || (len(s.Cfg.Res) == 0 && resolveRes(asRes(s.Cfg)).Panics) {
 		for i := range out {
 			out[i] = constructPanic
 		}
@@ -135,6 +135,25 @@ func runOracle(s Script) []string {
 	o := newOracle(s.Cfg)
 	for i, op := range s.Ops {
 		out[i] = evCount(s.Cfg, o.step(op))
+	}
+	return out
+}
+
+// asRes: the option list a configuration given as a record stands for
+func asRes(c Cfg) Cfg {
+	out := c
+	if c.W != nil {
+		out.Res = append(out.Res, "W:"+*c.W)
+	}
+	if c.Icpt != "" {
+		out.Res = append(out.Res, "icpt:"+c.Icpt)
+	}
+	for _, rec := range c.Init {
+		if c.Kind == "val" {
+			out.Res = append(out.Res, "init:"+rec)
+		} else {
+			out.Res = append(out.Res, "rec:"+rec)
+		}
 	}
 	return out
 }
@@ -284,6 +303,9 @@ func monitorOp(m *lib.Monitor, s Script, i int, want, got, pre, note string) {
 		}
 		return
 	}
+	if i == 0 && s.Cfg.Kind == "coll" && s.Cfg.Icpt != "" && len(s.Cfg.Init) > 0 {
+		monitorInitialRecords(m, s)
+	}
 	if strings.HasPrefix(got, "panic:") || strings.HasPrefix(got, "!") {
 		m.Violate(name+"/panic-or-stall", "the call panicked or did not return", in, want, got)
 		return
@@ -328,6 +350,27 @@ func monitorOp(m *lib.Monitor, s Script, i int, want, got, pre, note string) {
 	} {
 		if w, g := part(want, p.key), part(got, p.key); w != g {
 			m.Violate(name+p.sig, p.what, in, p.key+"="+w, p.key+"="+g)
+			return
+		}
+	}
+}
+
+// monitorInitialRecords: a Collection is a map keyed by the ids its entry points are handed - an initial
+// record given as id is what Get(id) returns on the fresh collection, whatever the id interceptor does
+// to ids (stated directly on the real code, independently of oracle and model).
+func monitorInitialRecords(m *lib.Monitor, s Script) {
+	r := newReal(s.Cfg, false)
+	if r.panicked != "" {
+		return
+	}
+	defer r.close()
+	for _, rec := range s.Cfg.Init {
+		p := strings.SplitN(rec, "~", 2)
+		want := rparse(p[1]).String()
+		m.Count("initial-record:get-checked")
+		if g := r.runRead(Op{Op: "get", ID: p[0]}); g != want {
+			m.Violate("C01/NewCollection/initial-record-not-under-intercepted-id", "Get(id) on a fresh collection does not return the initial record given as id: the record is not kept under the id interceptor's image of its id, the key every entry point looks up",
+				map[string]any{"script": Script{Cfg: s.Cfg, Ops: []Op{{Op: "list"}, {Op: "get", ID: p[0]}}}}, want, g)
 			return
 		}
 	}
